@@ -274,6 +274,102 @@ pub fn check_spec(spec: &RuleSpec, level: u8, doc_cap: usize, order_cap: u64) ->
     st
 }
 
+/// Passes applied by hand through `core::optimiser` in an order `Rule::optimise` never uses. Only
+/// differences that are *specific to the order* are reported: documents on which the standard
+/// order of the same set of passes already disagrees with the unoptimised rule belong to the
+/// main exploration above (and to the recorded findings).
+pub fn check_pass_orders(spec: &RuleSpec, level: u8, doc_cap: usize) -> Stats {
+    let mut st = Stats::default();
+    let yaml = spec.yaml();
+    let rule = match eng::load(&yaml) {
+        Ok(r) => r,
+        Err(_) => return st,
+    };
+    let base = Det::of_rule(&rule);
+    let docs = gen::docs_for(spec, level, doc_cap);
+    let base3: Vec<i8> = docs.iter().map(|d| base.val3(d).unwrap_or(2)).collect();
+    // every ordering of every subset of the four passes (each pass at most once)
+    let mut seqs: Vec<Vec<usize>> = vec![];
+    fn rec(cur: &mut Vec<usize>, out: &mut Vec<Vec<usize>>) {
+        if !cur.is_empty() {
+            out.push(cur.clone());
+        }
+        for p in 0..4 {
+            if !cur.contains(&p) {
+                cur.push(p);
+                rec(cur, out);
+                cur.pop();
+            }
+        }
+    }
+    rec(&mut vec![], &mut seqs);
+    let mut std_ok: HashMap<u8, Vec<bool>> = HashMap::new();
+    for seq in &seqs {
+        let standard = seq.windows(2).all(|w| w[0] < w[1]);
+        let set: u8 = seq.iter().fold(0, |a, p| a | (1 << p));
+        // coalesce anywhere but first optimises identifiers on their own before they are inlined
+        // under their quantifiers - the root cause of a recorded finding, in every order
+        if standard || seq.iter().position(|p| *p == 0).map(|i| i != 0).unwrap_or(false) {
+            continue;
+        }
+        tau_engine::verif::set_script(vec![]);
+        let mut cur = base.clone();
+        let mut panicked = None;
+        for p in seq {
+            let c2 = cur.clone();
+            let pp = *p;
+            match crate::report::catch(move || optrep::apply_pass(c2, pp)) {
+                Ok(d) => cur = d,
+                Err(m) => {
+                    panicked = Some(m);
+                    break;
+                }
+            }
+        }
+        let _ = tau_engine::verif::take_trace();
+        st.states += 1;
+        st.transitions += seq.len() as u64;
+        let names: Vec<&str> = seq.iter().map(|p| optrep::PASSES[*p]).collect();
+        if let Some(m) = panicked {
+            st.push_violation(Violation {
+                signature: format!("pass-order:panic:{}", m.chars().take(40).collect::<String>()),
+                witness: format!("passes {:?} applied by hand panic: {} ; rule {}", names, m, one_line(&yaml)),
+                replay: json!({"kind":"pass-order","rule_yaml":yaml,"passes":seq}),
+            });
+            continue;
+        }
+        let ok_std = std_ok.entry(set).or_insert_with(|| {
+            let stg = optrep::optimise_replica(&base, set, &[]);
+            match stg.panic {
+                Some(_) => vec![false; docs.len()],
+                None => {
+                    let last = &stg.stages.last().unwrap().1;
+                    docs.iter().enumerate().map(|(i, d)| (last.val3(d).unwrap_or(2) == 1) == (base3[i] == 1)).collect()
+                }
+            }
+        });
+        for (i, d) in docs.iter().enumerate() {
+            let v = cur.val3(d).unwrap_or(2);
+            st.transitions += 1;
+            st.evaluations += 1;
+            st.traces += 1;
+            if base3[i] == 2 || !ok_std[i] {
+                continue;
+            }
+            if v == 2 || (v == 1) != (base3[i] == 1) {
+                st.push_violation(Violation {
+                    signature: format!("pass-order:verdict-changes-only-in-this-order:{}", names.join(">")),
+                    witness: format!("unoptimised={} after passes {:?} by hand={} (the standard order of the same passes agrees with the unoptimised rule) ; rule {} doc {}", eng::v3name(base3[i]), names, if v == 2 { "PANIC" } else { eng::v3name(v) }, one_line(&yaml), d.show()),
+                    replay: json!({"kind":"pass-order","rule_yaml":yaml,"passes":seq,"document":crate::report::mobj_to_json(d)}),
+                });
+                break;
+            }
+        }
+    }
+    st.nontrivial += 1;
+    st
+}
+
 fn last_pass(s: &Staged) -> &'static str {
     match s.stages.last() {
         Some((p, _)) if *p < 4 => optrep::PASSES[*p],
@@ -302,6 +398,13 @@ pub fn run(tier: Tier) -> i32 {
     for p in parts {
         rep.stats.merge(p);
     }
+    // passes in non-standard orders through the core API
+    let po: Vec<&RuleSpec> = specs.iter().step_by(if tier.thorough() { 7 } else { 5 }).collect();
+    let parts: Vec<Stats> = po.par_iter().map(|s| check_pass_orders(s, 1, 60)).collect();
+    for p in parts {
+        rep.stats.merge(p);
+    }
+    rep.stats.count("pass_order_rule_specs", po.len() as u64);
     rep.stats.count("rule_specs_enumerated", specs.len() as u64);
     rep.exhaustive = rep
         .stats
